@@ -1,1 +1,2 @@
-
+import Gen.Plumbing
+import Gen.Data
